@@ -197,8 +197,20 @@ class Interp:
         self.def_key = fn_key_as_implemented if def_as_implemented else fn_key
 
     # ------------------------------------------------------------ entry
-    def run(self, doc, e):
-        root = Ctx(None, {'$1': doc})
+    def run(self, doc, e, env=None):
+        """env (harness/evalgen.py: gen_host_env): the host's own context chain - `layers` of variables from the root
+        upwards, the document bound as `$` above the first `at` of them ("named variables resolve through the enclosing
+        scopes": wherever the host bound something, the program sees it unless something nearer shadows it)"""
+        if env is None:
+            root = Ctx(None, {'$1': doc})
+        else:
+            root = None
+            layers = list(env['layers'])
+            for i in range(len(layers) + 1):
+                if i == env['at']:
+                    root = Ctx(root, {'$1': doc})
+                if i < len(layers):
+                    root = Ctx(root, {norm(n): v for n, v in layers[i]})
         return self.finalise(self.ev(e, root))
 
     def finalise(self, v):
@@ -395,7 +407,9 @@ class Interp:
         if isinstance(x, FD):
             return x.d[name]
         if is_iterable(x):
-            raise OOD('nested projection')
+            # "Retrieves the value of an attribute for each element in a collection": the element is a collection itself,
+            # so `element.name` is again the (lazy) projection of ITS elements - whatever kinds the neighbours are of
+            return self.member(x, name)
         raise NoFunctionRegisteredException('#property#' + name)
 
     # ------------------------------------------------------------ functions
@@ -690,10 +704,10 @@ def _named(name):
     return cls(name)
 
 
-def run(doc, e, max_steps=200000, def_as_implemented=False):
+def run(doc, e, max_steps=200000, def_as_implemented=False, env=None):
     """-> ('ok', finalised) | ('ctx',) | ('err', class name) | ('ood', why)"""
     try:
-        r = Interp(max_steps, def_as_implemented).run(doc, e)
+        r = Interp(max_steps, def_as_implemented).run(doc, e, env)
         if r[0] == 'ctx':
             return ('ctx',)
         return ('ok', r[1])
